@@ -1,5 +1,6 @@
 //! Harness: drives the real lsm-tree and records traces for the TLA+ trace specs.
 mod corrupt;
+mod crashopen;
 mod exec;
 mod filter;
 mod model;
@@ -61,6 +62,8 @@ fn replay(args: &[String]) -> i32 {
     let mut nbeh = 0u64;
     let mut nsteps = 0u64;
     let share_pairs = args.iter().any(|a| a == "--share-pairs");
+    // one write() per step on the trace file: the step boundaries of an strace recording
+    let flush_steps = args.iter().any(|a| a == "--flush-steps");
     let mut lines: Vec<(usize, Value)> = vec![];
     for (ln, line) in rd.lines().enumerate() {
         let line = line.expect("read");
@@ -147,6 +150,10 @@ fn replay(args: &[String]) -> i32 {
                     if share_pairs {
                         share = Some(sess.shared.clone());
                     }
+                    if flush_steps {
+                        writeln!(wr, "{reset}").expect("write");
+                        wr.flush().expect("flush");
+                    }
                     sessions.push((sess, ops, vec![reset], dir, false));
                 }
                 Err(e) => {
@@ -164,6 +171,10 @@ fn replay(args: &[String]) -> i32 {
                 }
                 let op = s.1[j].clone();
                 let (rec, stop) = step(&mut s.0, &op);
+                if flush_steps {
+                    writeln!(wr, "{rec}").expect("write");
+                    wr.flush().expect("flush");
+                }
                 s.2.push(rec);
                 nsteps += 1;
                 if stop {
@@ -173,6 +184,9 @@ fn replay(args: &[String]) -> i32 {
         }
         for (sess, _, recs, dir, _) in sessions {
             for r in recs {
+                if flush_steps {
+                    continue;
+                }
                 writeln!(wr, "{r}").expect("write");
             }
             nbeh += 1;
@@ -192,6 +206,7 @@ fn main() {
         Some("replay") => replay(&args[2..]),
         Some("tablecase") => tablecase::run(&args[2..]),
         Some("corrupt") => corrupt::run(&args[2..]),
+        Some("crashopen") => crashopen::run(&args[2..]),
         _ => {
             eprintln!("usage: harness replay --in F --out F [...]");
             2
